@@ -14,6 +14,8 @@ if [ $# -eq 0 ]; then
   [ "$rcpart" -ne 0 ] && exit "$rcpart"
   /venv/bin/python "$here/tools/py2v_cat/main.py" --repo "${BIOM_REPO:-/repo}" --out "$here"; rccat=$?   # accumulator mode (tools/regen_cat.sh)
   [ "$rccat" -ne 0 ] && exit "$rccat"
+  /venv/bin/python "$here/tools/py2v_sum/main.py" --repo "${BIOM_REPO:-/repo}" --out "$here"; rcsum=$?   # summary mode (tools/regen_sum.sh)
+  [ "$rcsum" -ne 0 ] && exit "$rcsum"
   [ "$rc1" -ne 0 ] && exit "$rc1"
   [ "$rc2" -ne 0 ] && exit "$rc2"
   exit "$rc3"
